@@ -17,7 +17,9 @@ import (
 )
 
 type Op struct {
-	K       string `json:"k"` // put fetch race head stale settings sinit worker restart
+	K       string `json:"k"` // put fetch race frace prace head stale settings sinit worker restart
+	St      int    `json:"st,omitempty"`  // frace / prace: the stage at which the deletion is recorded (see Model/Deletion.v)
+	Del     int    `json:"del,omitempty"` // frace / prace: 0 nothing, 1 settings change only (queued), 2 + one worker run
 	I       int    `json:"i,omitempty"`
 	P       int    `json:"p,omitempty"`
 	Derived bool   `json:"d,omitempty"`
@@ -76,6 +78,7 @@ type stepRes struct {
 	out   string
 	order []int // worker / race: recorded GetQueued order
 	obs   []Obs
+	fired bool // frace / prace: the operation reached the stage and the deletion was recorded
 }
 
 func universe(u int) []string {
@@ -128,6 +131,36 @@ func runHistory(f *Fixtures, d Desc) (res []stepRes, panicked interface{}) {
 			for _, s := range order {
 				sr.order = append(sr.order, unoid(s))
 			}
+		case "frace", "prace":
+			var order []string
+			pts := fetchPoints
+			if o.K == "prace" {
+				pts = putPoints
+			}
+			if o.St < 0 || o.St >= len(pts) {
+				panic(fmt.Sprintf("stage %d out of range for %s", o.St, o.K))
+			}
+			hook := &stageHook{point: pts[o.St], fn: func() {
+				if o.Del >= 1 {
+					w.Settings([]string{oid(o.I)})
+				}
+				if o.Del >= 2 {
+					order = w.Worker(-1, nil)
+				}
+			}}
+			var opErr error
+			if o.K == "frace" {
+				sr.out, opErr = w.FetchHooked(oid(o.I), pid(o.P), o.Derived, cid(o.I, o.H), true, nil, hook)
+			} else {
+				sr.out, opErr = w.PutHooked(oid(o.I), pid(o.P), o.Derived, hook)
+			}
+			if opErr != nil && os.Getenv("VERIF_C15_DEBUG") != "" {
+				fmt.Fprintf(os.Stderr, "%s st=%d del=%d: %s: %v\n", o.K, o.St, o.Del, sr.out, opErr)
+			}
+			sr.fired = hook.fired
+			for _, s := range order {
+				sr.order = append(sr.order, unoid(s))
+			}
 		case "head":
 			sr.out, _ = w.Head(oid(o.I), cid(o.I, o.H))
 		case "stale":
@@ -172,6 +205,12 @@ func opTerm(o Op, sr stepRes) string {
 		return vlib.App("OpFetch", vlib.N(uint64(o.I)), vlib.N(uint64(o.P)), vlib.Bool(o.Derived), vlib.N(uint64(o.H)), vlib.Bool(o.Remote))
 	case "race":
 		return vlib.App("OpFetchRace", vlib.N(uint64(o.I)), vlib.N(uint64(o.P)), vlib.Bool(o.Derived), vlib.N(uint64(o.H)), vlib.NList(u64s(sr.order)))
+	case "frace":
+		return vlib.App("OpFetchStaged", vlib.N(uint64(o.I)), vlib.N(uint64(o.P)), vlib.Bool(o.Derived), vlib.N(uint64(o.H)),
+			vlib.N(uint64(o.St)), vlib.N(uint64(o.Del)), vlib.NList(u64s(sr.order)))
+	case "prace":
+		return vlib.App("OpPutStaged", vlib.N(uint64(o.I)), vlib.N(uint64(o.P)), vlib.Bool(o.Derived),
+			vlib.N(uint64(o.St)), vlib.N(uint64(o.Del)), vlib.NList(u64s(sr.order)))
 	case "head":
 		return vlib.App("OpHead", vlib.N(uint64(o.I)), vlib.N(uint64(o.H)))
 	case "stale":
@@ -247,6 +286,26 @@ func genHistory(r *vlib.Rand, hostile bool) Desc {
 		}
 		return created[r.Intn(len(created))]
 	}
+	// a target for the staged ops: mostly an id nothing has been created for yet (so that the stage is reached)
+	pickFresh := func() int {
+		if r.Chance(1, 4) {
+			return pick()
+		}
+		var free []int
+		for i := 1; i <= u; i++ {
+			used := false
+			for _, c := range created {
+				used = used || c == i
+			}
+			if !used {
+				free = append(free, i)
+			}
+		}
+		if len(free) == 0 {
+			return pick()
+		}
+		return free[r.Intn(len(free))]
+	}
 	parent := func(i int) int {
 		if r.Chance(3, 5) {
 			return 0
@@ -260,27 +319,50 @@ func genHistory(r *vlib.Rand, hostile bool) Desc {
 	for len(d.Ops) < n {
 		x := r.Intn(100)
 		switch {
-		case x < 18:
+		case x < 16:
 			i := pick()
 			d.Ops = append(d.Ops, Op{K: "put", I: i, P: parent(i), Derived: r.Chance(1, 6)})
 			created = append(created, i)
 			histLen += 2
-		case x < 30:
+		case x < 26:
 			i := pick()
 			h++
 			d.Ops = append(d.Ops, Op{K: "fetch", I: i, P: parent(i), Derived: r.Chance(1, 8), H: h, Remote: !r.Chance(1, 6)})
 			created = append(created, i)
 			histLen += 3
-		case x < 36:
+		case x < 28:
 			i := pick()
 			h++
 			d.Ops = append(d.Ops, Op{K: "race", I: i, P: parent(i), Derived: r.Chance(1, 8), H: h})
 			histLen += 5
-		case x < 50:
+		case x < 37: // the deletion is recorded at a generated stage of the fetch, as queued or as deleted
+			i := pickFresh()
+			h++
+			o := Op{K: "frace", I: i, P: parent(i), Derived: r.Chance(1, 8), H: h, St: r.Intn(len(fetchPoints)), Del: 1 + r.Intn(2)}
+			if r.Chance(1, 12) {
+				o.Del = 0
+			}
+			d.Ops = append(d.Ops, o)
+			if o.St == len(fetchPoints)-1 {
+				created = append(created, i)
+			}
+			histLen += 6
+		case x < 41: // the same for PutSyncTree
+			i := pickFresh()
+			o := Op{K: "prace", I: i, P: parent(i), Derived: r.Chance(1, 6), St: r.Intn(len(putPoints)), Del: 1 + r.Intn(2)}
+			if r.Chance(1, 12) {
+				o.Del = 0
+			}
+			d.Ops = append(d.Ops, o)
+			if o.St == len(putPoints)-1 {
+				created = append(created, i)
+			}
+			histLen += 5
+		case x < 52:
 			h++
 			d.Ops = append(d.Ops, Op{K: "head", I: pickCreated(), H: h})
 			histLen++
-		case x < 58:
+		case x < 59:
 			d.Ops = append(d.Ops, Op{K: "stale", N: r.Intn(histLen + 2)})
 		case x < 72:
 			k := 1 + r.Intn(2)
@@ -322,8 +404,8 @@ func nontrivial(d Desc, res []stepRes) bool {
 	any := false
 	for k, o := range d.Ops {
 		switch o.K {
-		case "put", "fetch", "race", "head":
-			if tomb[o.I] {
+		case "put", "fetch", "race", "head", "frace", "prace":
+			if tomb[o.I] || (res[k].fired && o.Del > 0) {
 				return true
 			}
 		case "restart", "stale":
@@ -360,6 +442,17 @@ func main() {
 	var samples []interface{}
 
 	emit := func(d Desc) {
+		for k := range d.Ops { // replayed descriptions: keep the staged ops inside their ranges
+			op := &d.Ops[k]
+			if op.K == "frace" || op.K == "prace" {
+				n := len(fetchPoints)
+				if op.K == "prace" {
+					n = len(putPoints)
+				}
+				op.St = ((op.St % n) + n) % n
+				op.Del = ((op.Del % 3) + 3) % 3
+			}
+		}
 		res, p := runHistory(f, d)
 		if p != nil {
 			idx := w.Add("CHist [] [] []", d, key(d), false)
@@ -367,8 +460,20 @@ func main() {
 			return
 		}
 		nt := nontrivial(d, res)
-		for _, op := range d.Ops {
+		for k, op := range d.Ops {
 			w.Stat("op:" + op.K)
+			if op.K == "frace" || op.K == "prace" {
+				pts := fetchPoints
+				if op.K == "prace" {
+					pts = putPoints
+				}
+				how := []string{"none", "queued", "deleted"}[op.Del]
+				if res[k].fired {
+					w.Stat(fmt.Sprintf("staged:%s:%d-%s:%s:%s", op.K, op.St, pts[op.St], how, res[k].out))
+				} else {
+					w.Stat(fmt.Sprintf("staged:%s:stage-not-reached:%s", op.K, res[k].out))
+				}
+			}
 		}
 		for _, sr := range res {
 			if sr.out != "OOk" {
@@ -450,6 +555,6 @@ func main() {
 	if os.Getenv("VERIF_C15_TIMING") != "" {
 		fmt.Fprintln(os.Stderr, "timing new/close/restart/obs:", tNew, tClose, tRestart, tObs)
 	}
-	w.Finish("history in which some id is tombstoned and afterwards put/fetch/race/head targets a tombstoned id, or a stale re-delivery / restart happens while something is tombstoned; distinct by op list",
-		samples, map[string]interface{}{"generator": strings.TrimSpace("c15-v1")})
+	w.Finish("history in which some id is tombstoned and afterwards put/fetch/race/head targets a tombstoned id, or a deletion is recorded at a generated stage of a fetch / put (frace: after the local lookup, before the request, response in flight, deferred storage handed out, entry of the first AddAll, after it; prace: before the tombstone check, before the creating transaction, after it; as queued or as deleted), or a stale re-delivery / restart happens while something is tombstoned; distinct by op list",
+		samples, map[string]interface{}{"generator": strings.TrimSpace("c15-v2-staged")})
 }
